@@ -10,6 +10,8 @@ CONSTANTS
   Filters <- FAll
   Order <- OrderStated
   CompileMode = "stated"
+  Inners <- InnersNone
+  ScopeMode = "stated"
 INIT InitNone
 NEXT KNext
 INVARIANTS EmitKeys
